@@ -38,13 +38,58 @@ func addrLocals(fn *ssa.Function) map[string]*ssa.Alloc {
 			}
 		}
 	}
+	// variables captured by a closure live in a cell too; go/ssa names the cell after the variable
+	names := localNames(fn)
+	for _, b := range fn.Blocks {
+		for _, in := range b.Instrs {
+			a, ok := in.(*ssa.Alloc)
+			if !ok || a.Comment == "" || out[a.Comment] != nil || names[a.Comment] == nil {
+				continue
+			}
+			captured := false
+			if refs := a.Referrers(); refs != nil {
+				for _, r := range *refs {
+					if _, ok := r.(*ssa.MakeClosure); ok {
+						captured = true
+					}
+				}
+			}
+			if captured {
+				out[a.Comment] = a
+			}
+		}
+	}
 	return out
 }
 
 func (g *gen) bindAddrLocals(fr *frame, st *State, at *ssa.BasicBlock, out map[string]binding) {
+	names := localNames(fr.fn)
 	for name, a := range addrLocals(fr.fn) {
 		if _, has := out[name]; has {
-			continue
+			// The name is already bound to an SSA value. If every value that carries this name is a load
+			// of this very cell, the variable lives in memory and the name means its current contents,
+			// not the result of some earlier load.
+			fromCell := true
+			stored := map[ssa.Value]bool{}
+			if refs := a.Referrers(); refs != nil {
+				for _, r := range *refs {
+					if s, ok := r.(*ssa.Store); ok && s.Addr == ssa.Value(a) {
+						stored[s.Val] = true
+					}
+				}
+			}
+			for _, c := range names[name] {
+				if stored[c] {
+					continue // a value assigned to the variable
+				}
+				u, ok := c.(*ssa.UnOp)
+				if !ok || u.Op != token.MUL || u.X != ssa.Value(a) {
+					fromCell = false
+				}
+			}
+			if !fromCell {
+				continue
+			}
 		}
 		ref, ok := fr.vals[a]
 		if !ok {
